@@ -208,7 +208,7 @@ def run(rep, tier):
            "the target generation is registered in-flight before (and during) the backend copy", bw[0].where() if bw else cp.file)
 
     # ------------------------------------------------------------------ R08.4 collector
-    rep.rule("R08.4", "collect_garbage: every delete lies on the not-in-flight and not-referenced edges; too-young and Unknown entries never become candidates", floor=5)
+    rep.rule("R08.4", "collect_garbage: every delete lies on the not-in-flight and not-referenced edges; too-young and Unknown entries never become candidates", floor=6)
     gc = prog.fn(SC + "::collect_garbage")
     rep.saw(gc, len(gc.events))
     dels = [e for (ff, e, m) in events if ff is gc and m == "delete"]
@@ -229,6 +229,14 @@ def run(rep, tier):
             if tt is not None and d.block not in gc.reachable_from([tt], avoid=loop_heads):
                 ok_inf = True
         rep.ob("R08.4", "delete-not-in-flight|collect_garbage", ok_inf and bool(inf), "the `is_in_flight` edge cannot reach the delete", d.where())
+        # order of the two tests: a writer releases its in-flight registration only after its pointer commit returned,
+        # so "not in flight" followed by "not referenced" proves the payload is garbage; the other order leaves a window
+        # (re-read sees nothing, writer commits and unregisters, registry is empty) in which a committed payload is deleted.
+        late = [i for i in inf for r in ref if gc.must_pass([r.block], [d.block])
+                and i.block in gc.reachable_from(gc.succ[r.block], avoid=loop_heads)]
+        rep.ob("R08.4", "in-flight-before-recheck|collect_garbage", bool(inf) and bool(ref) and not late,
+               "the in-flight registry must be consulted before the final commit-point re-read (is_referenced), never after it",
+               late[0].where() if late else d.where())
     pushes = gc.calls_named(r"Vec::<T, A>::push$")
     unk = [m["Unknown"] for (sb, place, adt, m, els) in gc.variant_edges() if adt and adt.endswith("PayloadRef") and "Unknown" in m]
     ok = bool(unk) and bool(pushes) and not any(gc.reachable_from([t], avoid=loop_heads) & {p.block for p in pushes} for t in unk)
@@ -263,6 +271,11 @@ def run(rep, tier):
                         if not (gc.reachable_from([tt], avoid=loop_heads) & {p.block for p in pushes}):
                             young = True
     rep.ob("R08.4", "young-generation-skipped|collect_garbage", young, "generations minted at/after the start of the collection are skipped (ts >= floor edge reaches no candidate push)", gc.file + ":%d" % gc.line)
+
+    # ------------------------------------------------------------------ R08.6 backend failures are not answers
+    rep.rule("R08.6", "no backend failure is turned into an answer: the Err edge of every object_store::Result test reaches an Ok return only "
+                      "through an arm naming a specific error variant (mark phase, re-check, listing, reads)", floor=12)
+    ostore.error_swallow_rules(rep, "R08.6", prog)
 
     # ------------------------------------------------------------------ R08.5 single retry
     rep.rule("R08.5", "read paths re-resolve a stale pointer at most once (refresh_meta only while the retried flag is false)", floor=5)
